@@ -179,13 +179,19 @@ SetupFromParts(s, seed, ssk, fsk, mode, extfail) ==
 -----------------------------------------------------------------------------
 \* Registration
 
-CRegStart(i, pw, tape) ==
+\* early: an over-long password may be refused by the start step already (no property says WHICH step
+\* refuses it; opaque-ke as pinned blinds any length and refuses at finish) -- then nothing is produced
+CRegStart(i, pw, tape, early) ==
     /\ regs[i].st = "none"
-    /\ LET r == Rnd(tape, "blind")
-           b == Blind(pw, r) IN
-       /\ regs' = [regs EXCEPT ![i] = [NoReg EXCEPT !.st = "started", !.pw1 = pw,
-                                                    !.blind = r, !.blinded = b]]
-       /\ Observe([ev |-> "CRegStart", id |-> i, pw |-> Enc(pw), tape |-> tape], <<b, r>>)
+    /\ early => TooLong(pw)
+    /\ IF early
+       THEN /\ regs' = [regs EXCEPT ![i] = [NoReg EXCEPT !.st = "refused", !.pw1 = pw]]
+            /\ Observe([ev |-> "CRegStart", id |-> i, pw |-> Enc(pw), tape |-> tape, res |-> "TooLong"], <<>>)
+       ELSE LET r == Rnd(tape, "blind")
+                b == Blind(pw, r) IN
+            /\ regs' = [regs EXCEPT ![i] = [NoReg EXCEPT !.st = "started", !.pw1 = pw,
+                                                         !.blind = r, !.blinded = b]]
+            /\ Observe([ev |-> "CRegStart", id |-> i, pw |-> Enc(pw), tape |-> tape], <<b, r>>)
     /\ UNCHANGED <<setups, files, cl, sv, garbage>>
 
 SRegStartRes(s, blinded, cid) ==
@@ -242,15 +248,19 @@ SRegFinish(u, rec) ==
 -----------------------------------------------------------------------------
 \* Login
 
-CLogStart(c, pw, tape) ==
+CLogStart(c, pw, tape, early) ==
     /\ cl[c].st = "none"
-    /\ LET r   == Rnd(tape, "blind")
-           esk == KDk(Rnd(tape, "eseed"))
-           q   == Req(Blind(pw, r), Rnd(tape, "cnonce"), KPk(esk)) IN
-       /\ cl' = [cl EXCEPT ![c] = [NoCli EXCEPT !.st = "started", !.pw1 = pw, !.blind = r,
-                                                !.req = q, !.esk = esk]]
-       /\ Observe([ev |-> "CLogStart", id |-> c, pw |-> Enc(pw), tape |-> tape],
-                  <<q.blinded, q.cnonce, q.cepk, r, esk>>)
+    /\ early => TooLong(pw)
+    /\ IF early
+       THEN /\ cl' = [cl EXCEPT ![c] = [NoCli EXCEPT !.st = "refused", !.pw1 = pw]]
+            /\ Observe([ev |-> "CLogStart", id |-> c, pw |-> Enc(pw), tape |-> tape, res |-> "TooLong"], <<>>)
+       ELSE LET r   == Rnd(tape, "blind")
+                esk == KDk(Rnd(tape, "eseed"))
+                q   == Req(Blind(pw, r), Rnd(tape, "cnonce"), KPk(esk)) IN
+            /\ cl' = [cl EXCEPT ![c] = [NoCli EXCEPT !.st = "started", !.pw1 = pw, !.blind = r,
+                                                     !.req = q, !.esk = esk]]
+            /\ Observe([ev |-> "CLogStart", id |-> c, pw |-> Enc(pw), tape |-> tape],
+                       <<q.blinded, q.cnonce, q.cepk, r, esk>>)
     /\ UNCHANGED <<setups, regs, files, sv, garbage>>
 
 SrvFail(r) == [res |-> r, resp |-> NoResp, km3 |-> NoneV, th3 |-> NoneV, sk |-> NoneV]
